@@ -7,7 +7,7 @@
    input bucket.  The live collectors (pedantic registration, concurrent gathering, name uniqueness, counter
    monotonicity) are exercised by the harness only. *)
 From Coq Require Import ZArith List Bool.
-From Verif Require Import Base.F64 Model.Rebucket Proofs.C18_proofs.
+From Verif Require Import Base.F64 Base.Str Model.Rebucket Proofs.C18_proofs.
 Import ListNotations.
 Open Scope Z_scope.
 
@@ -89,6 +89,12 @@ Theorem index_correspondence : forall (A : Type) (descs : list (A * bool)) (extr
   sample_buf_of descs extra = (sb, ms) ->
   forall i, (i < length ms)%nat -> nth_error sb i = nth_error ms i.
 Proof. exact C18_proofs.index_correspondence_lemma. Qed.
+
+(* name derivation: the transcription of RuntimeMetricsToProm produces the documented name
+   go_<path segments joined by _>_<unit>[_total] ('-' and '*' -> '_', '/' inside the unit -> _per_) *)
+Theorem name_model_is_spec : forall n c k fq v,
+  runtime_metrics_to_prom n c k = Some (fq, v) -> name_spec n c k = Some fq.
+Proof. exact C18_proofs.name_model_is_spec_lemma. Qed.
 
 (* the hypotheses are satisfiable: a seconds histogram with -Inf first and a count overflowing uint64 *)
 Example example_precondition :
